@@ -41,4 +41,4 @@ META = dict(
     technique="runtime monitoring: writer-log checker (exactly-once, order, format, no-late-write) + allocator balance + TSan/ASan/LSan under schedule perturbation",
 )
 
-CFG["rule"] += (" " + "Additions: 14 harness-registered subjects with names of 1-300 characters; a third of the scenarios have a writer that fails every 7th write; one call in 25 cannot be formatted (%ls, C locale); every timestamp is decoded as UTC and compared with the time of the call (TSan stages run with TZ=XYZ-9); the truncation stage also drives the standard logger over the library's file writer and the no-alloc logger over a stream that refuses writes; stage thr_tsanrel (-O2 under TSan).")
+CFG["rule"] += (" " + "Additions: 14 harness-registered subjects with names of 1-300 characters; a third of the scenarios have a writer that fails every 7th write; one call in 25 cannot be formatted (%ls, C locale); every timestamp is decoded as UTC and compared with the time of the call (TSan stages run with TZ=XYZ-9); the truncation stage also drives the standard logger over the library's file writer and the no-alloc logger over a stream that refuses writes; stage thr_tsanrel (-O2 under TSan). In a third of the background scenarios the writer itself sends a follow-up line through the channel on every fifth write (from the logger thread, also while clean-up is waiting for that thread); every such line must reach the writer before clean-up returns.")
